@@ -25,16 +25,29 @@ def cross_type_events(env, rng, thorough):
     pairs = [(a, b) for a in qts for b in qts if a != b]
     if not thorough:
         pairs = rng.sample(pairs, 2500)
+    # legacy spellings of units (target written in a legacy spelling of a unit of ANOTHER quantity type)
+    from barril.units import unit_database as _udb
+    legacy_of = {}
+    for qt in qts:
+        for u in units[qt]:
+            for old, new in _udb._LEGACY_TO_CURRENT:
+                if new in u and _udb.FixUnitIfIsLegacy(u.replace(new, old))[1] == u:
+                    legacy_of.setdefault(qt, []).append(u.replace(new, old))
+    legacy_pairs = [(a, b) for b in legacy_of for a in rng.sample(qts, 40 if thorough else 12) if a != b]
     events = []
     n = 0
-    for a, b in pairs:
+    for item in pairs + [(a, b, "legacy") for a, b in legacy_pairs]:
+        a, b = item[0], item[1]
         ua, ub = (base[a], base[b]) if rng.random() < 0.5 else (rng.choice(units[a]), rng.choice(units[b]))
+        if len(item) == 3:
+            ub = rng.choice(legacy_of[b])
         ca, cb = defcat[a], defcat[b]
         if not ca or not cb:
             continue
-        sa, sb = Scalar(2.0, ua, ca), Scalar(3.0, ub, cb)
-        aa, ab = Array(ca, [1.0, 2.0], ua), Array(cb, [3.0, 4.0], ub)
-        fa, fb = FractionScalar(ca, value=1.5, unit=ua), FractionScalar(cb, value=2.5, unit=ub)
+        ubc = _udb.FixUnitIfIsLegacy(ub)[1]          # operands are built with the current spelling
+        sa, sb = Scalar(2.0, ua, ca), Scalar(3.0, ubc, cb)
+        aa, ab = Array(ca, [1.0, 2.0], ua), Array(cb, [3.0, 4.0], ubc)
+        fa, fb = FractionScalar(ca, value=1.5, unit=ua), FractionScalar(cb, value=2.5, unit=ubc)
         calls = [
             ("db.Convert(qt,u,v,x)", lambda: db.Convert(a, ua, ub, 1.0)),
             ("db.Convert(cat,u,v,list)", lambda: db.Convert(ca, ua, ub, [1.0, 2.0])),
